@@ -118,6 +118,33 @@ pub fn monitor_c03(made: &Made, l: &mut Local) {
             );
             continue;
         }
+        // S1-latest: "as the network last advertised it": of several live SRV records the one received last is shown
+        {
+            let live: Vec<(&RecId, &Life)> = hist
+                .possibly_live(t, 0, |id| id.rtype == wire::T_SRV && wire::dotted(&id.name) == full)
+                .filter(|(_, life)| life.from <= t && t + sl + 1 < life.until && !hist.withdrawn_at(life, t))
+                .collect();
+            // a packet delivered at the very instant of the event is in, if it was the only packet of that instant
+            // (events are built after the whole packet was taken in); with several packets at one instant nothing is judged
+            let mut packets_at_t: Vec<usize> = hist.deliveries.iter().filter(|d| d.t == t).map(|d| d.packet).collect();
+            packets_at_t.dedup();
+            let at_t = packets_at_t.len() > 1;
+            let last_rx = |life: &Life| life.receptions.iter().filter(|(at, _)| *at <= t).map(|(at, _)| *at).max().unwrap_or(0);
+            if live.len() > 1 {
+                let newest = live.iter().map(|(_, l)| last_rx(l)).max().unwrap();
+                let winners: Vec<&(&RecId, &Life)> = live.iter().filter(|(_, l)| last_rx(l) == newest).collect();
+                if winners.len() == 1 && !at_t {
+                    l.act("S1-latest");
+                    if !srv_matches(winners[0].0) {
+                        l.violate(
+                            Violation::new("S1", "S1/not-the-srv-received-last", format!("ServiceResolved({}) shows {}:{} although a different SRV record was received later and both are live", r.fullname, r.host, r.port))
+                                .with(wit()),
+                        );
+                        continue;
+                    }
+                }
+            }
+        }
         // S2
         let host_spelled = r.host.to_lowercase();
         let mut bad = None;
@@ -174,6 +201,28 @@ pub fn monitor_c03(made: &Made, l: &mut Local) {
                     Violation::new("S3", "S3/properties-not-from-live-txt", format!("ServiceResolved({}) shows properties that no live TXT record of the instance decodes to", r.fullname))
                         .with(wit()),
                 );
+                continue;
+            }
+            // S3-latest: of several live TXT records the one received last is shown
+            let live: Vec<(&RecId, &Life)> = hist
+                .possibly_live(t, 0, |id| id.rtype == wire::T_TXT && wire::dotted(&id.name) == full)
+                .filter(|(_, life)| life.from <= t && t + sl + 1 < life.until && !hist.withdrawn_at(life, t))
+                .collect();
+            let mut packets_at_t: Vec<usize> = hist.deliveries.iter().filter(|d| d.t == t).map(|d| d.packet).collect();
+            packets_at_t.dedup();
+            if live.len() > 1 && packets_at_t.len() <= 1 {
+                let last_rx = |life: &Life| life.receptions.iter().filter(|(at, _)| *at <= t).map(|(at, _)| *at).max().unwrap_or(0);
+                let newest = live.iter().map(|(_, l)| last_rx(l)).max().unwrap();
+                let winners: Vec<&(&RecId, &Life)> = live.iter().filter(|(_, l)| last_rx(l) == newest).collect();
+                if winners.len() == 1 {
+                    l.act("S3-latest");
+                    if !matches!(&winners[0].0.rdata, RData::Txt(b) if txt_as_crate_decodes(b) == got) {
+                        l.violate(
+                            Violation::new("S3", "S3/not-the-txt-received-last", format!("ServiceResolved({}) shows the properties of a TXT record although a different one was received later and both are live", r.fullname))
+                                .with(wit()),
+                        );
+                    }
+                }
             }
         }
     }
